@@ -56,15 +56,40 @@ struct Shape {
 static Shape shape_of(const Op &op) {
     Shape s;
     Fam f = g_fn[op.fn].fam;
-    s.neg_is_failure = f == FAM_FMT || f == FAM_WFMT || f == FAM_SFMT || f == FAM_SCAN;
-    if (f == FAM_FMT || f == FAM_WFMT || f == FAM_UNI || f == FAM_COPY || f == FAM_NCOPY) {
-        bool wide = f == FAM_WFMT || f == FAM_UNI || op.fn == FN_wcscpy_s || op.fn == FN_wcscat_s || op.fn == FN_wcsncpy_s || op.fn == FN_wcsncat_s || op.fn == FN_wmemcpy_s || op.fn == FN_wmemmove_s;
-        if (op.fn != FN_iswfc && op.a[0] >= 0 && op.a[1] > 0) {
-            s.has_dest = true;
-            s.dest = (int)op.a[0];
-            s.dmax = (int)op.a[1];
-            s.esz = wide ? 4 : 1;
-        }
+    s.neg_is_failure = f == FAM_FMT || f == FAM_WFMT || f == FAM_SFMT || f == FAM_SCAN || op.fn == FN_stpcpy_s || op.fn == FN_stpncpy_s;
+    int di = -1, mi = -1, esz = 1;
+    switch (f) {
+    case FAM_COPY:
+        di = 0; mi = 1;
+        esz = (op.fn == FN_wcscpy_s || op.fn == FN_wcscat_s) ? 4 : 1;
+        break;
+    case FAM_NCOPY:
+        di = 0; mi = 1;
+        esz = (op.fn == FN_wcsncpy_s || op.fn == FN_wcsncat_s || op.fn == FN_wmemcpy_s || op.fn == FN_wmemmove_s) ? 4 : 1; // mem*16/32: dmax is in bytes
+        break;
+    case FAM_FMT: di = 0; mi = 1; break;
+    case FAM_WFMT: di = 0; mi = 1; esz = 4; break;
+    case FAM_UNI:
+        if (op.fn != FN_iswfc) { di = 0; mi = 1; esz = 4; }
+        break;
+    case FAM_CONV:
+        di = 1; mi = 2;
+        esz = (op.fn == FN_mbstowcs_s || op.fn == FN_mbsrtowcs_s) ? 4 : 1;
+        break;
+    case FAM_TIME:
+        if (op.fn == FN_asctime_s || op.fn == FN_ctime_s || op.fn == FN_strerror_s) { di = 0; mi = 1; }
+        else if (op.fn == FN_getenv_s) { di = 1; mi = 2; }
+        break;
+    case FAM_SCAN:
+        if (op.fn == FN_gets_s) { di = 2; mi = 3; }
+        break;
+    default: break;
+    }
+    if (di >= 0 && op.a[di] >= 0 && op.a[mi] > 0 && op.a[mi] <= 4096) {
+        s.has_dest = true;
+        s.dest = (int)op.a[di];
+        s.dmax = (int)op.a[mi];
+        s.esz = esz;
     }
     return s;
 }
